@@ -116,7 +116,9 @@ def ctor_sites(repo):
     return out
 
 
-def r2_base(ctx):
+def init_permutation(ctx, rule='R2.init-permutation'):
+    """SpectralInformation.__init__ stores every per-channel field as param[argsort(frequency)] with ONE permutation
+    (shared by C01, C03, C07: channel order of the caller is irrelevant, arrays stay aligned)"""
     repo = ctx.repo
     owner = si_class(repo)
     init = repo.method(owner, '__init__')
@@ -124,7 +126,6 @@ def r2_base(ctx):
     missing = [p for p in PER_CHANNEL if p not in params]
     if missing:
         raise AnchorMissing(f'SpectralInformation.__init__ lost parameters {missing}')
-    # --- __init__: one permutation for all fields
     ev = Evaluator(repo, init).run_function()
     order = None
     for p in params:
@@ -137,9 +138,17 @@ def r2_base(ctx):
             if order is None:
                 order = idx
             ok = idx == order and 'argsort(frequency)' in idx
-        ctx.check('R2.init-permutation', site, ok, f'{init.qual}|_{p}',
+        ctx.check(rule, site, ok, f'{init.qual}|_{p}',
                   f'self._{p} is not {p}[argsort(frequency)] with the one common permutation',
                   f'self._{p} = {vkey(v)}')
+    ctx.need(rule, 16, '16 per-channel constructor parameters')
+    return params
+
+
+def r2_base(ctx):
+    repo = ctx.repo
+    owner = si_class(repo)
+    params = init_permutation(ctx)
     # --- call sites
     sites = ctor_sites(repo)
     for f, call in sites:
@@ -200,7 +209,6 @@ def r2_base(ctx):
                   f'arguments {odd} are not selected/merged the same way as frequency ({ref})',
                   f'common shape {ref}')
     ctx.need('R2.ctor-site', 3, '__add__, create_arbitrary_spectral_information, select_channels')
-    ctx.need('R2.init-permutation', 16, '16 per-channel constructor parameters')
 
 
 # --------------------------------------------------------------------------------------------- R3
